@@ -109,6 +109,7 @@ func registerHooks(p *Program) {
 		fr.i.noteStub("go.etcd.io/bbolt: replaced by the mbolt model (validated against real bbolt by harness/verifrt/mbolt/diff_test.go)")
 		return call(fr.i, fr, token.NoPos, mb.Func("NewDB"), nil)
 	}
+	h[rtPkg+".TempPath"] = func(fr *frame, args []value) value { return "/mbolt/tmp/" + args[0].(string) }
 	h[rtPkg+".CleanupDBs"] = func(fr *frame, args []value) value { return nil }
 	h[rtPkg+".IsConcrete"] = func(fr *frame, args []value) value {
 		_, ok := args[0].(string)
